@@ -151,6 +151,11 @@ def op(method="get", path="/a", params=(), body=None, responses=None, tags=None,
             "responses": responses if responses is not None else {"204": "none"}, "tags": tags, "op_id": op_id}
 
 
+def tag_name(i):
+    """auto tag of operation i: letters only, so that no name derivation splits or rewrites it"""
+    return "t" + chr(97 + (i // 26) % 26) + chr(97 + i % 26)
+
+
 def op_obj(case, idx, auto_tag=True, auto_id=True):
     o = {}
     if case.get("op_id") is not None:
@@ -160,7 +165,7 @@ def op_obj(case, idx, auto_tag=True, auto_id=True):
     if case.get("tags") is not None:
         o["tags"] = list(case["tags"])
     elif auto_tag:
-        o["tags"] = [f"t{idx}"]
+        o["tags"] = [tag_name(idx)]
     ps = [param_obj(p) for p in case["params"] if p["at"] in ("op", "both")]
     if ps:
         o["parameters"] = ps
@@ -186,7 +191,7 @@ def build_doc(cases, auto_tag=True, auto_id=True, prefix=True):
                 if p not in item["parameters"]:
                     item["parameters"].append(p)
         item[c["method"]] = op_obj(c, i, auto_tag, auto_id)
-        meta.append({"index": i, "path": path, "method": c["method"].upper(), "tag": (c.get("tags") or [f"t{i}"])[0] if (c.get("tags") or auto_tag) else "default",
+        meta.append({"index": i, "path": path, "method": c["method"].upper(), "tag": (c.get("tags") or [tag_name(i)])[0] if (c.get("tags") or auto_tag) else "default",
                      "op_id": c.get("op_id") or f"op{i}"})
     return {"openapi": "3.0.3", "info": {"title": "O", "version": "1"}, "paths": paths, "components": {"schemas": copy.deepcopy(SCHEMAS)}}, meta
 
